@@ -56,12 +56,6 @@ func VerifRawEntriesTr(tr *Transaction) ([]VerifRawEntry, int, error) {
 	return verifDrain(tr.db.newRawIterator(tr.mem, tr.tables, nil, nil))
 }
 
-// VerifSeq returns the DB's current sequence number (the seq a new DB iterator gets).
-func VerifSeq(db *DB) uint64 { return db.getSeq() }
-
-// VerifSnapshotSeq returns the sequence number of a snapshot.
-func VerifSnapshotSeq(snap *Snapshot) uint64 { return snap.elem.seq }
-
 // VerifTrSeq returns the sequence number a transaction iterator reads at.
 func VerifTrSeq(tr *Transaction) uint64 {
 	tr.lk.RLock()
